@@ -219,7 +219,7 @@ def rounds_loop(chk, crate, g):
     rounds = v.fields[find_field(adt, "rounds", "u8")]
     ev.call_body(st, genkey, [ref])
     chk.body(genkey)
-    recs = list(ev.loops_log)  # the loops may live in library combinators (for_each, try_fold) inlined under gen_entropy
+    recs = [r_ for r_ in ev.loops_log if not r_.closed]  # the loops may live in library combinators (for_each, try_fold) inlined under gen_entropy
     found = None
     for r in recs:
         for (cond, nxt, world, assume) in r.conts:
